@@ -42,7 +42,12 @@ func Errors(sp *spec.Spec, sv *spec.Service, m *spec.Method, r *vc.Rand, n int, 
 					continue
 				}
 				rr := r.Fork(uint64(1000 + i*16 + fl))
-				c.Outcome = &rt.Outcome{Kind: kinds[fl%3], ErrName: e.Name, ErrMsg: errMsgs[rr.Intn(len(errMsgs))], ErrID: fmt.Sprintf("id%d", fl),
+				msg := errMsgs[rr.Intn(len(errMsgs))]
+				if he := sp.HTTPErrorFor(sv, m, e.Name); he != nil && (len(he.Headers) > 0 || he.Body == "empty") {
+					// the message travels in a header: header-safe text only (transport limit)
+					msg = []string{"boom", "not found: id 42", "with \"quotes\" and \\ slash", "<b>html</b> & more", "x"}[rr.Intn(5)]
+				}
+				c.Outcome = &rt.Outcome{Kind: kinds[fl%3], ErrName: e.Name, ErrMsg: msg, ErrID: fmt.Sprintf("id%d", fl),
 					Timeout: fl&1 != 0, Temporary: fl&2 != 0, Fault: fl&4 != 0}
 				add(c)
 			}
